@@ -2,6 +2,7 @@
 # Build the Lean model, proofs and per-property drivers from files on disk only (offline).
 set -e
 cd "$(dirname "$0")/lean/PyresampleModel"
+python3 ../../harness/py2lean.py || true
 lake build 2>&1 | grep -v "conda.cli.condarc" | tail -3
 DRIVERS=""
 for f in ../../meta/C*.json; do
